@@ -941,19 +941,33 @@ class _Cumsum:
     @staticmethod
     def gen(rng):
         s = rshape(rng)
-        return dict(shape=s, dtype=rdtype(rng, ("f32", "i64")), dim=rdim(rng, len(s)))
+        c = dict(shape=s, dtype=rdtype(rng, ("f32", "i64", "i64", "i32")), dim=rdim(rng, len(s)), cast=None)
+        if rng.random() < 0.35:
+            # dtype= : the input is cast before accumulating (float halves -> int64 shows the order)
+            c["dtype"], c["cast"] = ("f32", 7) if rng.random() < 0.6 else (c["dtype"], rng.choice([1, 11, 7]))
+        return c
 
     @staticmethod
     def line(c):
-        return f"cumsum {sh(c['shape'])} {c['dim']}"
+        return f"cumsum {sh(c['shape'])} {c['dim']} {opt(c.get('cast'))} ."
+
+    @staticmethod
+    def _data(c):
+        x = _x(c)
+        return np.asarray((x / np.float32(2)).astype(x.dtype)) if c["dtype"] == "f32" else x     # halves: 0, .5, 1, 1.5 …
 
     @staticmethod
     def call(c):
-        return [_x(c), c["dim"]], {}
+        return [_Cumsum._data(c), c["dim"]], ({} if c.get("cast") is None else {"dtype": c["cast"]})
 
     @staticmethod
     def torch(c, t):
-        return t.cumsum(t.tensor(_x(c)), c["dim"])
+        dt = {None: None, 1: t.float32, 7: t.int64, 11: t.float64}[c.get("cast")]
+        return t.cumsum(t.tensor(_Cumsum._data(c)), c["dim"], dtype=dt)
+
+    @staticmethod
+    def branch(c):
+        return ("rank0" if not c["shape"] else "cumsum") + (":cast" if c.get("cast") else "")
 
 
 # ---- pool / conv / pad attribute adjustment -------------------------------------------------------
@@ -1075,8 +1089,8 @@ fam("max_pool2d_with_indices", "attr", ["aten::max_pool2d_with_indices"], outkin
 fam("max_pool3d_with_indices", "attr", ["aten::max_pool3d_with_indices"], outkind="list")(_max(3, True))
 
 
-def _gen_conv(rng, allow_transposed, allow_len1):
-    k = rng.choice([1, 2, 2, 3]) if allow_len1 else 2
+def _gen_conv(rng, allow_transposed, allow_len1, k=None):
+    k = k if k is not None else rng.choice([1, 2, 2, 3]) if allow_len1 else 2
     g = rng.choice([1, 1, 2])
     cg, og = rng.choice([1, 2]), rng.choice([1, 2])
     tr = allow_transposed and rng.random() < 0.35
@@ -1138,21 +1152,38 @@ class _Convolution:
             + ("" if len(set(c["pad"])) <= 1 else ":asym")
 
 
-@fam("conv2d", "attr", ["aten::conv2d"])
-class _Conv2d:
-    fnname = "aten_conv2d"
+def _convnd(k):
+    class _C:
+        fnname = f"aten_conv{k}d"
 
-    @staticmethod
-    def gen(rng):
-        return _gen_conv(rng, False, False)
+        @staticmethod
+        def gen(rng):
+            c = _gen_conv(rng, False, False, k=k)
+            c["bias"] = rng.random() < 0.6
+            return c
 
-    line = staticmethod(_conv_line)
+        @staticmethod
+        def line(c):
+            return (f"convnd {sh(c['shape'])} {sh(c['w'])} {int(c['bias'])} {ints(c['st'])} {ints(c['pad'])} {ints(c['dil'])} {c['g']}")
 
-    @staticmethod
-    def call(c):
-        return [fdata(c["shape"]), fdata(c["w"]), fdata([c["nout"]]), c["st"], c["pad"], c["dil"], c["g"]], {}
+        @staticmethod
+        def call(c):
+            return [fdata(c["shape"]), fdata(c["w"]), (fdata([c["nout"]]) if c["bias"] else None), c["st"], c["pad"], c["dil"], c["g"]], {}
 
-    torch = staticmethod(_conv_torch)
+        @staticmethod
+        def torch(c, t):
+            x, w = t.tensor(fdata(c["shape"])), t.tensor(fdata(c["w"]))
+            b = t.tensor(fdata([c["nout"]])) if c["bias"] else None
+            return getattr(t.nn.functional, f"conv{k}d")(x, w, b, tuple(c["st"]), tuple(c["pad"]), tuple(c["dil"]), c["g"])
+
+        @staticmethod
+        def branch(c):
+            return "bias" if c["bias"] else "no-bias"
+    return _C
+
+
+for _k in (1, 2, 3):
+    fam(f"conv{_k}d", "attr", [f"aten::conv{_k}d"])(_convnd(_k))
 
 
 def _gen_pad(rng, mode):
@@ -1600,13 +1631,14 @@ def _dimv(rng, zero_p=0.05):
 
 
 def _gen_mm(rng):
-    m, k, n = _dimv(rng), _dimv(rng), _dimv(rng)
+    # inner size K = 0: onnxruntime's MatMul leaves the output uninitialised (runtime defect, seen on [1,0]·[1,3,0,4]); K > 0 everywhere
+    m, k, n = _dimv(rng), _dimv(rng, 0.0), _dimv(rng)
     k2 = k if rng.random() < 0.93 else k + 1
     return dict(shape=[m, k], other=[k2, n], dtype="f32")
 
 
 def _gen_bmm(rng):
-    b, m, k, n = _dimv(rng), _dimv(rng), _dimv(rng), _dimv(rng)
+    b, m, k, n = _dimv(rng), _dimv(rng), _dimv(rng, 0.0), _dimv(rng)
     return dict(shape=[b, m, k], other=[b if rng.random() < 0.95 else b + 1, k if rng.random() < 0.95 else k + 1, n], dtype="f32")
 
 
@@ -1623,7 +1655,7 @@ def _gen_dot(rng):
 
 
 def _gen_matmul(rng):
-    k = _dimv(rng, 0.03)
+    k = _dimv(rng, 0.0)
     ra, rb = rng.choice([1, 1, 2, 2, 3, 4]), rng.choice([1, 1, 2, 2, 3, 4])
     nb = max(ra, rb) - 2
     batch = [rng.choice([1, 2, 3]) for _ in range(max(nb, 0))]
@@ -1850,6 +1882,128 @@ _pixel("pixel_shuffle", "aten_pixel_shuffle", "aten::pixel_shuffle", lambda t, x
 _pixel("pixel_unshuffle", "aten_pixel_unshuffle", "aten::pixel_unshuffle", lambda t, x, r: t.pixel_unshuffle(x, r), False)
 
 
+# ---- softmax family / linear -------------------------------------------------------------------------
+
+def _softmax_fam(name, fnname, overloads, kind):
+    class _S:
+        @staticmethod
+        def gen(rng):
+            s = rshape(rng, 0, 3, zero_p=0.0)
+            c = dict(shape=s, dtype="f32", dim=rdim(rng, len(s), 0.04), cast_in=False, cast_out=None)
+            u = rng.random()
+            if kind == 0 and u < 0.3:
+                c["cast_out"] = 11                     # dtype=torch.float64
+            elif kind != 0 and u < 0.5:
+                c["dtype"] = "f16"
+                c["cast_in"] = u < 0.3                 # half_to_float
+            return c
+
+        @staticmethod
+        def line(c):
+            return f"softmax {kind} {sh(c['shape'])} {c['dim']} {int(c['cast_in'])} {opt(c['cast_out'])}"
+
+        @staticmethod
+        def _data(c):
+            return np.asarray(_mm_small(c["shape"], 0).astype(NP[c["dtype"]]))
+
+        @staticmethod
+        def call(c):
+            if kind == 0:
+                return [_S._data(c), c["dim"]], ({} if c["cast_out"] is None else {"dtype": c["cast_out"]})
+            return [_S._data(c), c["dim"], c["cast_in"]], {}
+
+        @staticmethod
+        def torch(c, t):
+            x = t.tensor(_S._data(c))
+            if kind == 0:
+                return t.softmax(x, c["dim"], dtype=(None if c["cast_out"] is None else t.float64))
+            if c["cast_in"]:
+                # half_to_float is CUDA-only in eager; its meaning is "softmax of the float32 copy"
+                return (t._softmax if kind == 1 else t._log_softmax)(x.float(), c["dim"], False)
+            return (t._softmax if kind == 1 else t._log_softmax)(x, c["dim"], False)
+
+        @staticmethod
+        def branch(c):
+            return ("rank0" if not c["shape"] else "rank>0") + (":cast-in" if c["cast_in"] else "") + (":cast-out" if c["cast_out"] else "")
+    _S.fnname = fnname
+    return fam(name, "reduction", overloads)(_S)
+
+
+_softmax_fam("softmax", "aten_softmax", ["aten::softmax.int", "aten::special_softmax"], 0)
+_softmax_fam("_softmax", "aten__softmax", ["aten::_softmax"], 1)
+_softmax_fam("_log_softmax", "aten__log_softmax", ["aten::_log_softmax"], 2)
+
+
+@fam("linear", "linalg", ["aten::linear"])
+class _Linear:
+    @staticmethod
+    def gen(rng):
+        inn, out = rng.choice([1, 2, 3]), rng.choice([1, 2, 3])
+        lead = [rng.choice([1, 2, 3]) for _ in range(rng.choice([0, 1, 1, 2, 3]))]
+        u = rng.random()
+        w, b = [out, inn], ([out] if u < 0.55 else None)
+        if u > 0.85:
+            w, b = [inn], None
+        if rng.random() < 0.05:
+            w[-1] += 1
+        return dict(shape=lead + [inn], dtype="f32", w=w, bias=b)
+
+    @staticmethod
+    def line(c):
+        return f"linear {sh(c['shape'])} {sh(c['w'])} {'N' if c['bias'] is None else sh(c['bias'])} ."
+
+    @staticmethod
+    def call(c):
+        return [_mm_small(c["shape"], 0), _mm_small(c["w"], 1)] + ([] if c["bias"] is None else [_mm_small(c["bias"], 2)]), {}
+
+    @staticmethod
+    def torch(c, t):
+        return t.nn.functional.linear(t.tensor(_mm_small(c["shape"], 0)), t.tensor(_mm_small(c["w"], 1)),
+                                      None if c["bias"] is None else t.tensor(_mm_small(c["bias"], 2)))
+
+    @staticmethod
+    def branch(c):
+        if len(c["shape"]) == 2 and len(c["w"]) == 2:
+            return "gemm" + (":bias" if c["bias"] else "")
+        return "weight1d" if len(c["w"]) == 1 else "matmul" + (":bias" if c["bias"] else "")
+
+
+@fam("vector_norm", "reduction", ["aten::linalg_vector_norm"])
+class _VectorNorm:
+    fnname = "aten_linalg_vector_norm"
+
+    @staticmethod
+    def gen(rng):
+        s = rshape(rng, 0, 3, zero_p=0.0)
+        dims = None if rng.random() < 0.3 else _gen_dims(rng, len(s), allow_empty=False)
+        return dict(shape=s, dtype="f32", ord=rng.choice(["inf", "-inf", 0, 1, 2, 2, 4, -1, -2]), dims=dims, keep=rng.random() < 0.5)
+
+    @staticmethod
+    def line(c):
+        return f"vector_norm {c['ord']} {sh(c['shape'])} {'N' if c['dims'] is None else ints(c['dims'])} {int(c['keep'])}"
+
+    @staticmethod
+    def _ord(c):
+        return float(c["ord"]) if isinstance(c["ord"], str) else c["ord"]
+
+    @staticmethod
+    def _data(c):
+        return np.asarray(_mm_small(c["shape"], 1) + np.float32(0.25))     # no zeros: negative orders divide
+
+    @staticmethod
+    def call(c):
+        return [_VectorNorm._data(c), _VectorNorm._ord(c), (None if c["dims"] is None else list(c["dims"])), c["keep"]], {}
+
+    @staticmethod
+    def torch(c, t):
+        return t.linalg.vector_norm(t.tensor(_VectorNorm._data(c)), _VectorNorm._ord(c), c["dims"], c["keep"])
+
+    @staticmethod
+    def branch(c):
+        o = c["ord"]
+        return ("no-dim" if c["dims"] is None else "dims") + ":" + ("inf" if o in ("inf", "-inf") else f"ord{o}" if o in (0, 1, 2) else "pow-abs" if o < 0 or o % 2 else "pow")
+
+
 # ---- branch classification of the modelled trace-time code (printed into the evidence; a required counter
 # ---- that stays at zero in a run is an infrastructure failure, never a silent pass) -----------------
 
@@ -2036,7 +2190,7 @@ def _addsub(name, fnname, is_add, scalar):
 
         @staticmethod
         def branch(c):
-            return ("bool:" + ("identity" if c["alpha2"] == 0 else "or")) if c["dtype2"] == "bool" else \
+            return ("bool:" + ("or-masked" if c["alpha2"] == 0 else "or")) if c["dtype2"] == "bool" else \
                 ("alpha1" if c["alpha2"] == 2 else "alpha-mul")
     _A.fnname = fnname
     return fam(name, "scalar", ["aten::" + name.replace("_scalar", ".Scalar") if scalar else "aten::" + name + ".Tensor"])(_A)
@@ -2191,7 +2345,7 @@ _create("ones_like", "aten_ones_like", "aten::ones_like")
 
 for _n in ("add", "sub", "add_scalar", "sub_scalar"):
     BRANCHES[_n] = [FAMILIES[_n]["branch"]]
-for _n in ("clamp", "clamp_tensor"):
+for _n in ("clamp", "clamp_tensor", "conv1d", "conv2d", "conv3d", "softmax", "_softmax", "_log_softmax", "linear", "vector_norm", "cumsum"):
     BRANCHES[_n] = [FAMILIES[_n]["branch"]]
 BRANCHES.update({
     "matmul": [lambda c: "0d" if not c["shape"] or not c["other"] else f"{min(len(c['shape']), 3)}d-{min(len(c['other']), 3)}d"],
@@ -2204,11 +2358,18 @@ BRANCHES.update({
     "pixel_shuffle": [lambda c: "rank4" if len(c["shape"]) == 4 else "reshape-path"],
     "pixel_unshuffle": [lambda c: "rank4" if len(c["shape"]) == 4 else "rank3" if len(c["shape"]) == 3 else "batched"],
 })
+REQUIRED += ["softmax:rank0", "softmax:rank>0", "softmax:rank>0:cast-out", "_softmax:rank0", "_softmax:rank>0", "_softmax:rank>0:cast-in",
+             "_log_softmax:rank0", "_log_softmax:rank>0", "_log_softmax:rank>0:cast-in",
+             "linear:gemm", "linear:gemm:bias", "linear:weight1d", "linear:matmul", "linear:matmul:bias"]
+REQUIRED += ["vector_norm:no-dim:inf", "vector_norm:dims:inf", "vector_norm:dims:ord0", "vector_norm:dims:ord1", "vector_norm:dims:ord2",
+             "vector_norm:no-dim:ord2", "vector_norm:dims:pow", "vector_norm:dims:pow-abs"]
+REQUIRED += ["cumsum:cumsum:cast"]
+REQUIRED += ["conv1d:bias", "conv1d:no-bias", "conv2d:bias", "conv2d:no-bias", "conv3d:bias", "conv3d:no-bias"]
 REQUIRED += ["matmul:1d-1d", "matmul:1d-2d", "matmul:2d-1d", "matmul:2d-2d", "matmul:3d-3d", "matmul:3d-1d", "matmul:1d-3d",
              "max_dim:rank0", "max_dim:reduce", "max_dim:reduce:keep", "min_dim:rank0", "min_dim:reduce",
              "logsumexp:rank0", "logsumexp:reduce", "logcumsumexp:rank0", "logcumsumexp:cumsum",
              "scatter_src:general", "scatter_src:index0d", "scatter_add:general",
              "pixel_shuffle:rank4", "pixel_shuffle:reshape-path", "pixel_unshuffle:rank4", "pixel_unshuffle:batched"]
-REQUIRED += ["add:bool:identity", "add:bool:or", "add:alpha1", "add:alpha-mul", "sub:alpha-mul", "add_scalar:alpha-mul",
+REQUIRED += ["add:bool:or-masked", "add:bool:or", "add:alpha1", "add:alpha-mul", "sub:alpha-mul", "add_scalar:alpha-mul",
              "clamp:none", "clamp:lo", "clamp:hi", "clamp:lohi", "clamp_tensor:none", "clamp_tensor:lo", "clamp_tensor:hi",
              "clamp_tensor:lohi"]
